@@ -17,9 +17,29 @@ pub enum Reg {
     Enum(ChemicalComposition<'static>),
 }
 
+/// a second `PeriodicTable` instance with the same content (what `ChemicalElements::new()` builds): keys made from it are
+/// EQUAL to the global table's keys but refer to other `Element` objects
+fn second_table() -> &'static chemical_elements::PeriodicTable {
+    use std::sync::OnceLock;
+    static T2: OnceLock<&'static chemical_elements::PeriodicTable> = OnceLock::new();
+    T2.get_or_init(|| {
+        let ce = chemical_elements::ChemicalElements::new();
+        let mut t = chemical_elements::PeriodicTable::new();
+        for e in ce.periodic_table.elements.values() {
+            t.add(e.clone());
+        }
+        Box::leak(Box::new(t))
+    })
+}
+
+/// `Sym:iso` (global table) or `Sym:iso~2` (the second table instance)
 pub fn key(s: &str) -> Option<Spec> {
+    let (s, second) = match s.strip_suffix("~2") {
+        Some(r) => (r, true),
+        None => (s, false),
+    };
     let (sym, iso) = s.split_once(':')?;
-    let e = PERIODIC_TABLE.get(sym)?;
+    let e = if second { second_table().get(sym)? } else { PERIODIC_TABLE.get(sym)? };
     Some(ElementSpecification::new(e, iso.parse().ok()?))
 }
 
